@@ -9,6 +9,7 @@
 
 mod acct;
 mod common;
+mod crash;
 mod device;
 mod interpose;
 mod logw;
@@ -60,6 +61,7 @@ fn execute(plan: Plan, dir: &Path) -> RunOutcome {
             "logw" => logw::execute(plan, &dir).await,
             "acct" => acct::execute(plan, &dir).await,
             "netw" => netw::execute(plan, &dir).await,
+            "crash" => crash::execute(plan, &dir).await,
             other => panic!("unknown family {other}"),
         }
     });
@@ -71,6 +73,7 @@ fn generate(family: &str, property: &str, seed: u64, tier: Tier) -> Plan {
         "logw" => logw::generate(property, seed, tier),
         "acct" => acct::generate(property, seed, tier),
         "netw" => netw::generate(property, seed, tier),
+        "crash" => crash::generate(property, seed, tier),
         other => panic!("unknown family {other}"),
     }
 }
@@ -124,6 +127,14 @@ fn main() {
                     .expect("parse plan");
             let o = execute(plan, &dir);
             write_outcome(&dir, &o);
+        }
+        "crash-op" => {
+            let f = PathBuf::from(args.get(2).expect("job file"));
+            let job: crash::OpJob =
+                serde_json::from_slice(&std::fs::read(&f).expect("read job")).expect("parse job");
+            interpose::seed_rng(job.seed);
+            let rt = child_runtime();
+            rt.block_on(crash::run_op_job(job));
         }
         "minimise" => {
             // sossim minimise <replay.json> <budget_s>: shrink further, rewrite the file
